@@ -9,4 +9,13 @@ class C01(ProgProp):
            "base_exc": 0.2, "p_item_eq": 0.15, "p_ext_tasks": 0.12}
 
 
+    def gen(self, rng, tier, k):
+        if k % 32 == 9:
+            from .. import gen as g
+            spec = g.motif_cancel_scheduled(rng)
+            spec["keep_prio"] = True
+            return self.motif_case(rng, tier, spec)
+        return ProgProp.gen(self, rng, tier, k)
+
+
 PROP = C01()
